@@ -83,6 +83,24 @@ def random_script(sid, rnd, group):
     return sc
 
 
+def stop_stories(group):
+    """Destroy with a consumer that does not read its input (it waits for the InputClosed signal, as a forwarder does while its
+    upstream refuses): every number of accepted chunks from none to window + queue + 2, the consumer having taken 0..M of them -
+    in particular the window exactly full with one chunk in the feeder's hands and nothing queued behind it"""
+    q, m, mb, dirok = GROUPS[group]
+    out = []
+    for k in range(0, q + m + 3):
+        for j in range(0, min(k, m) + 1):
+            for late in (40, 4):
+                a = [{"at": 0, "do": "accept", "size": 1} for _ in range(k)]
+                c = [{"at": 0, "do": "take"} for _ in range(j)]
+                out.append({"id": "%s-stalled-%d-%d-%d" % (group, k, j, late), "seed": 7 + k * 31 + j, "jitter": False, "q": q, "m": m, "maxBytes": mb,
+                            "nodir": not dirok, "early": False,
+                            "gens": [{"a": a, "c": c, "destroyAt": 10 ** 6 if late == 40 else 4 * k, "policy": "stalled"},
+                                     {"a": [], "c": [], "destroyAt": 30, "policy": "confirm"}]})
+    return out
+
+
 def consts_for(group):
     q, m, mb, dirok = GROUPS[group]
     return {"Q": q, "M": m, "MaxBytes": mb, "DirUsable": "TRUE" if dirok else "FALSE"}
